@@ -2,14 +2,21 @@
 """Print the prompt given to an independent mutation-seeding sub-agent for one property."""
 import json, sys
 pid = sys.argv[1]
+rnd = sys.argv[2] if len(sys.argv) > 2 else ''     # round tag: worktrees live under /tmp/seed<rnd>/
 for l in open('/verif/properties.jsonl'):
     p = json.loads(l)
     if p['id'] == pid:
         break
 else:
     sys.exit("no such property")
-wt = f"/tmp/seed/{pid}/wt"
-out = f"/tmp/seed/{pid}/out"
+wt = f"/tmp/seed{rnd}/{pid}/wt"
+out = f"/tmp/seed{rnd}/{pid}/out"
+avoid = ""
+import os
+for d in sorted(os.listdir("/verif/seeded")) if os.path.isdir("/verif/seeded") else []:
+    mp = f"/verif/seeded/{d}/meta.json"
+    if d.startswith(pid) and os.path.exists(mp) and rnd:
+        avoid += "\n  - " + json.load(open(mp)).get("summary", "")[:400].replace("\n", " ")
 print(f"""You are helping to test a verification framework for the Rust crate `minidump-writer` (Rust rewrite of Breakpad's minidump writer; Linux x86-64 here). You have your own scratch git worktree of the crate at {wt} (a detached checkout; work ONLY there and in {out}; never touch /repo or /verif, never read anything under /verif).
 
 Here is a semantic property the crate is supposed to satisfy:
@@ -18,7 +25,7 @@ Here is a semantic property the crate is supposed to satisfy:
   Statement: {p['statement']}
   Quantified over: {p['quantifier']['text']}
 
-Your job: produce ONE realistic source change to the crate (the kind of bug a maintainer could plausibly introduce in a refactor or 'optimisation') that BREAKS this property, while
+{('Someone else already produced the following change(s) for this property; yours must be of a DIFFERENT kind (different code site and different trigger):' + avoid + chr(10) + chr(10)) if avoid else ''}Your job: produce ONE realistic source change to the crate (the kind of bug a maintainer could plausibly introduce in a refactor or 'optimisation') that BREAKS this property, while
   (a) the crate still compiles, and
   (b) the existing test-suite still passes: run `cd {wt} && CARGO_NET_OFFLINE=true cargo test --workspace --no-fail-fast --offline` (42 tests; there is no network, everything needed is cached; the first build takes a minute or so). Run the baseline once before your change to see what passing looks like, then again with your change.
 The change must need something SPECIFIC to manifest - a particular input or unusual value, a particular interleaving, a fault at a particular point, a multi-step sequence of operations, or two cooperating sites that each look fine alone - i.e. NOT something that ordinary use or the existing tests would expose at once. Keep it small (a few lines), in the non-test source under src/ (Linux code paths; src/mac and src/windows cannot be built here).
